@@ -71,19 +71,29 @@ ModelGeom(m, tv) ==
 
 IsHoro(tv) == Len(tv) = 2 /\ DgIdeal(tv[1]) /\ ~DgIdeal(tv[2])
 HoroGeom(m, tv, w) ==
-  IF m = "klein" \/ ~IsHoro(tv) \/ ~(DgDefined(m, tv[2]) /\ DgInView(m, tv[2])) THEN [ok |-> FALSE]
+  IF m = "klein" \/ ~IsHoro(tv) \/ ~(DgDefined(m, tv[2]) /\ DgInView(m, tv[2])) \/ (~DgAtInf(tv[1]) /\ ~DgInView(m, tv[1]))
+  THEN [ok |-> FALSE]
   ELSE LET h == DgHoro(m, tv[1], tv[2])
        \* a horosphere of radius >= Threshold is replaced by a horizontal line by the drawing code: outside the domain
        \* a centre that is moved to infinity by a non-trivial transformation is at infinity only up to rounding
        IN IF (h.kind = "circle" /\ ~RLess(h.r, RInt(Threshold))) \/ (h.kind = "flat" /\ w # <<>>) THEN [ok |-> FALSE]
           ELSE [ok |-> TRUE, h |-> h]
 
+\* a geodesic of the half-plane with one end at infinity (untransformed: the end is at infinity exactly): the vertical
+\* half-line over the other end, drawn from the boundary to beyond the window
+VLine(tv, w) ==
+  IF Len(tv) = 2 /\ w = <<>> /\ DgIdeal(tv[1]) /\ DgIdeal(tv[2]) /\ (DgAtInf(tv[1]) # DgAtInf(tv[2]))
+  THEN LET f == IF DgAtInf(tv[1]) THEN tv[2] ELSE tv[1]
+       IN IF DgInView("halfplane", f) THEN [ok |-> TRUE, x |-> DgRat(DgCoord("halfplane", f))[1]] ELSE [ok |-> FALSE]
+  ELSE [ok |-> FALSE]
+
 Scene(w, vs) ==
   LET tv == [i \in 1..Len(vs) |-> DgAct(DgWordVal(w), vs[i])] IN
   [word |-> w, verts |-> vs, tv |-> tv, ideal |-> [i \in 1..Len(vs) |-> DgIdeal(tv[i])],
    T |-> DgWordVal(w),
    geom |-> [m \in DrawModels |-> ModelGeom(m, tv)],
-   horo |-> [m \in DrawModels |-> HoroGeom(m, tv, w)]]
+   horo |-> [m \in DrawModels |-> HoroGeom(m, tv, w)],
+   vline |-> VLine(tv, w)]
 
 \* emitted once per scene (an INVARIANT: evaluated on every distinct state, and in simulation on the visited states)
 EmitScene == verts = <<>> \/ PrintT("EMIT " \o ToJson(Scene(word, verts)))
@@ -119,6 +129,10 @@ Equivariant ==
 HorospheresAreCircles ==
   (TinyScene /\ IsHoro(TVerts)) => \A m \in {"poincare", "halfplane"} :
      DgDefined(m, TVerts[2]) => DgHoroTheorem(m, TVerts[1], TVerts[2], TU)
+
+VerticalsAreGeodesics ==
+  VLine(TVerts, word).ok =>
+    \A z \in TU : (~DgAtInf(z) /\ MDot(DgNormal(TVerts[1], TVerts[2]), z) = 0) => DgRat(DgCoord("halfplane", z))[1] = VLine(TVerts, word).x
 
 \* the special points produce every kind of edge in both conformal models
 KindsCovered ==
